@@ -712,10 +712,9 @@ impl GenFont {
                     }
                 }
             } else if t == tag("kern") && !self.kern_pairs.is_empty() {
-                // `kern` requested but not in GPOS: the kern table sets (not adds) the kerning of
-                // every glyph that has a successor
+                // `kern` requested but not in GPOS: the kern table's pair values are added
                 for i in 0..glyphs.len().saturating_sub(1) {
-                    kern[i] = self.kern_pairs.iter().find(|q| q.0 == glyphs[i] && q.1 == glyphs[i + 1]).map_or(0, |q| q.2 as i32);
+                    kern[i] += self.kern_pairs.iter().find(|q| q.0 == glyphs[i] && q.1 == glyphs[i + 1]).map_or(0, |q| q.2 as i32);
                 }
             }
         }
